@@ -142,7 +142,7 @@ def handler_name_collisions(v):
 def run(tier, seed, replay=None):
     v = common.Verdict("C10", tier, seed)
     rng = common.rng_for(seed, "C10", tier)
-    n = 800 if tier == "quick" else 20000
+    n = 2400 if tier == "quick" else 20000
     base = common.workdir("c10")
     docs = make_docs(rng, n, base)
     if replay:
